@@ -140,7 +140,7 @@ fn run_child(shape: &str, n: usize) -> Result<f64, String> {
         .stdout(std::process::Stdio::piped())
         .stderr(std::process::Stdio::null())
         .spawn()
-        .map_err(|e| e.to_string())?;
+        .map_err(|e| format!("MACHINERY: cannot start the child process: {e}"))?;
     let start = std::time::Instant::now();
     loop {
         match child.try_wait() {
@@ -270,6 +270,10 @@ pub fn run_check(ctx: &Ctx) -> i32 {
         ctx.exec(2);
         ctx.validated(1);
         if let Some(msg) = shape_check(shape, base) {
+            if msg.contains("MACHINERY") {
+                *ctx.machinery_error.lock().unwrap() = Some(msg);
+                continue;
+            }
             // timing may differ between runs: confirm once more before reporting
             if let Some(msg2) = shape_check(shape, base) {
                 let case = json!({"kind": "shape", "shape": shape, "n": base});
